@@ -59,7 +59,11 @@ def handwritten(did):
             vs.append(v)
         E = enum(did + len(out), vs, repr_=repr_)
         E["anchor_rs"], E["absvals"], E["repr_mode"] = "0", [], "plain"
+        # discriminants that name BASE: every second such definition is declared inside the function that uses it
+        if any("BASE" in (v.get("discx") or "") for v in vs) and len(out) % 2 == 0:
+            E["in_fn"] = True
         out.append(E)
+    mk("u8", [("In", 7, "BASE | 2", False), ("Next", 0, None, False), ("Twice", 10, "BASE * 2", False), ("Off", 0, None, True), ("Last", 0, None, False)])
     mk("u8", [("A", 16, "1 << 4", False), ("B", 0, None, False), ("C", 7, "BASE | 2", False), ("D", 0, None, False),
               ("E", 12, "0x0F & 0x3C", False), ("F", 0, None, False), ("G", 5, "6 ^ 3", False), ("H", 0, None, False)])
     mk("i32", [("A", -500, "-(2 + 3) * 100", False), ("B", 0, None, False), ("C", 1024, "1 << 10", False), ("D", 0, None, False),
@@ -68,6 +72,12 @@ def handwritten(did):
     mk("u16", [("Half", 32767, "!0 >> 1", False), ("More", 0, None, False), ("Small", 5, "!0 % 10", False)])
     mk("i8", [("A", -3, "-3", False), ("B", 0, None, False), ("Hole", 40, "40", True), ("C", 0, None, False), ("D", 0, None, False)])
     mk("u16", [("Hole0", 9, "9", True), ("A", 0, None, False), ("Hole1", 300, "0x12C", True), ("Hole2", 0, None, True), ("B", 0, None, False)])
+    for rp in ("none", "u8"):
+        vs = [variant("Unit"), variant("Opt", "tuple", [field("optT")]), variant("Named", "named", [field("phT", "p"), field("u8", "n")]),
+              variant("Off", "tuple", [field("optT")], dis=True)]
+        E = enum(did + len(out), vs, repr_=rp, generics="tynd")
+        E["anchor_rs"], E["absvals"], E["repr_mode"] = "0", [], "plain"
+        out.append(E)
     # a full byte: 256 variants on repr(u8), every value taken (some disabled); more variants than a byte on repr(u16)
     mk("u8", [("V%d" % k, 0, None, k % 37 == 5) for k in range(256)])
     mk("u16", [("W%d" % k, 0, None, k % 41 == 7) for k in range(300)])
